@@ -29,7 +29,7 @@ pub enum Case {
     /// a Coinbase element inside a script
     Coinbase { before: Vec<El>, data: Bytes },
     /// standard signature-checking shapes with garbage operands: `unlock` pushes, then keys / counts / CHECK* opcode
-    SigShape { kind: u8, sigs: Vec<Bytes>, keys: Vec<Bytes>, m: Bytes, n: Bytes, value: Option<u64>, dummy: bool },
+    SigShape { kind: u8, sigs: Vec<Bytes>, keys: Vec<Bytes>, m: Bytes, n: Bytes, value: Option<u64>, dummy: bool, #[serde(default)] filler: Vec<gs::Filler>, #[serde(default)] inside: bool },
     /// interpreter built from a transaction input
     FromTx { n_in: u8, idx: u8, lock: Option<Vec<El>>, value: Option<u64>, unlock: Vec<El> },
 }
@@ -204,7 +204,7 @@ impl Property for C16 {
     const ID: &'static str = "C16";
 
     fn rule() -> String {
-        "Opcode soup over every opcode value of the library's table (reserved, disabled, template pseudo-opcodes; via from_script_bits also bare structural and PUSHDATA opcodes) with adversarial operands (negative, 2^31 +/- 1, > 4 bytes, empty, negative zero), signature- and key-shaped pushes, initial stacks of depth 0..6, nested conditionals (random trees; straight nests to depth 150 / 300); random byte strings that parse; a Coinbase element; interpreters built from transaction inputs with/without locking script and value running CHECKSIG/CHECKMULTISIG on garbage signatures and off-curve keys. Oracle: no panic (catch_unwind) and no process death (supervised child + journal); steps <= elements of the flattened tree + 1; stepping to the end and run() give the same Ok/Err and the same final stacks; after an Err the stacks equal the last returned state. Non-trivial = >= 3 executed steps or an error path reached; distinct by hash of the serialised case.".into()
+        "Opcode soup over every opcode value of the library's table (reserved, disabled, template pseudo-opcodes; via from_script_bits also bare structural and PUSHDATA opcodes) with adversarial operands (negative, 2^31 +/- 1, > 4 bytes, empty, negative zero), signature- and key-shaped pushes, initial stacks of depth 0..6, nested conditionals (random trees; straight nests to depth 150 / 300); random byte strings that parse; a Coinbase element; interpreters built from transaction inputs with/without locking script and value running CHECKSIG/CHECKMULTISIG on garbage signatures and off-curve keys, half of them behind or inside conditionals holding code separators. Oracle: no panic (catch_unwind) and no process death (supervised child + journal); steps <= elements of the flattened tree + 1; stepping to the end and run() give the same Ok/Err and the same final stacks; after an Err the stacks equal the last returned state. Non-trivial = >= 3 executed steps or an error path reached; distinct by hash of the serialised case.".into()
     }
 
     fn assumptions() -> Vec<String> {
@@ -269,11 +269,11 @@ impl Property for C16 {
             6 => prop::collection::vec(any::<u8>(), 0..60).prop_map(|bytes| Case::Raw { bytes }),
             4 => (gs::script_with_strays(false, 3), prop::collection::vec(crate::props::c02::mutation(), 0..3)).prop_map(|(els, muts)| { let mut b = gs::to_bytes(&els); crate::props::c02::apply_mutations(&mut b, &muts); Case::Raw { bytes: b } }),
             1 => (1u32..100, 0u8..18, prop::sample::select(vec![99u8, 100])).prop_map(|(depth, cond, code)| Case::Nest { depth, cond, code }),
-            10 => (0u8..4, prop::collection::vec(sig_like().prop_map(Bytes::Lit), 0..4), prop::collection::vec(key_like().prop_map(Bytes::Lit), 0..4), adversarial_operand().prop_map(Bytes::Lit), adversarial_operand().prop_map(Bytes::Lit), prop::option::weighted(0.9, gen::u64_edge()), any::<bool>(), any::<u8>())
-                .prop_map(|(kind, sigs, keys, m, n, value, dummy, pick_count)| {
+            10 => (0u8..4, prop::collection::vec(sig_like().prop_map(Bytes::Lit), 0..4), prop::collection::vec(key_like().prop_map(Bytes::Lit), 0..4), adversarial_operand().prop_map(Bytes::Lit), adversarial_operand().prop_map(Bytes::Lit), prop::option::weighted(0.9, gen::u64_edge()), any::<bool>(), any::<u8>(), prop_oneof![1 => Just(vec![]), 1 => gs::filler(5)], any::<bool>())
+                .prop_map(|(kind, sigs, keys, m, n, value, dummy, pick_count, filler, inside)| {
                     // most of the time the counts are the true ones
                     let (m, n) = if pick_count % 4 != 0 { (Bytes::Lit(im::enc(&BigInt::from(sigs.len()))), Bytes::Lit(im::enc(&BigInt::from(keys.len())))) } else { (m, n) };
-                    Case::SigShape { kind, sigs, keys, m, n, value, dummy }
+                    Case::SigShape { kind, sigs, keys, m, n, value, dummy, filler, inside }
                 }),
             1 => (soup(false, 1), prop::collection::vec(any::<u8>(), 0..20)).prop_map(|(before, d)| Case::Coinbase { before, data: Bytes::Lit(d) }),
             12 => (1u8..3, any::<u8>(), prop::option::weighted(0.85, soup(false, 2)), prop::option::weighted(0.85, gen::u64_edge()), soup(false, 1)).prop_map(|(n_in, idx, lock, value, unlock)| Case::FromTx { n_in, idx, lock, value, unlock }),
@@ -332,7 +332,7 @@ impl Property for C16 {
                 let script = Script::from_script_bits(bits);
                 check_interpreter(&|| Ok(Interpreter::from_script(&script)), &mut o)?;
             }
-            Case::SigShape { kind, sigs, keys, m, n, value, dummy } => {
+            Case::SigShape { kind, sigs, keys, m, n, value, dummy, filler, inside } => {
                 o.label("signature-shape");
                 let mut unlock: Vec<El> = vec![];
                 let mut lock: Vec<El> = vec![];
@@ -361,6 +361,21 @@ impl Property for C16 {
                         lock.push(push_el(&n.to_vec()));
                         lock.push(El::Op(if kind % 4 == 2 { 174 } else { 175 }));
                     }
+                }
+                // conditionals on constant conditions, NOPs and code separators before the check, or around it
+                if !filler.is_empty() {
+                    o.label("signature-shape-with-conditionals");
+                    let mut fl = gs::filler_els(filler);
+                    if *inside {
+                        fl.push(El::Op(0x51));
+                        fl.push(El::If { code: 99, pass: lock, fail: None });
+                    } else {
+                        fl.extend(lock);
+                    }
+                    lock = fl;
+                    let toks = gs::to_tokens(&lock);
+                    let (after, at) = gs::executed_separator(&toks, 172..=175);
+                    o.label_if(at.is_some() && after > gs::to_tokens(&[]).len() && after > lock.len(), "separator-position-beyond-top-level-count");
                 }
                 let mut tx = Transaction::new(1, 0);
                 let mut txin = TxIn::new(&[7u8; 32], 1, &script_from_els(&unlock), Some(0xffffffff));
